@@ -98,13 +98,30 @@ def theorem_names(prop):
 FORBIDDEN = re.compile(r"\bsorry\b|\badmit\b|^\s*axiom\s|native_decide|bv_decide|implemented_by|\bunsafe\s|maxHeartbeats\s+0", re.M)
 
 
-def forbidden_hits():
+def import_closure(prop):
+    """source files of the Cadence modules Cadence/Props/<prop>.lean depends on (transitively)"""
+    seen, todo = set(), ["Cadence.Props." + prop]
+    while todo:
+        m = todo.pop()
+        if m in seen:
+            continue
+        path = os.path.join(LEAN, *m.split(".")) + ".lean"
+        if not os.path.exists(path):
+            continue
+        seen.add(m)
+        for l in open(path):
+            mm = re.match(r"\s*import\s+(Cadence\.\S+)", l)
+            if mm:
+                todo.append(mm.group(1))
+    return sorted(os.path.join(LEAN, *m.split(".")) + ".lean" for m in seen)
+
+
+def forbidden_hits(prop):
     hits = []
-    for base, _, files in os.walk(os.path.join(LEAN, "Cadence")):
-        for f in files:
-            if not f.endswith(".lean"):
-                continue
-            p = os.path.join(base, f)
+    for p in import_closure(prop):
+        if True:
+            if True:
+                pass
             src = open(p).read()
             nocom = re.sub(r"/-.*?-/", lambda m: "\n" * m.group(0).count("\n"), src, flags=re.S)
             nocom = re.sub(r"--.*", "", nocom)
@@ -155,7 +172,7 @@ def lean_obligations(prop, thorough=False):
             res["failed"].append("theorem %s depends on %s" % (t, ",".join(bad)))
         else:
             res["discharged"] += 1
-    hits = forbidden_hits()
+    hits = forbidden_hits(prop)
     if hits:
         res["failed"].append("forbidden constructs: " + "; ".join(hits[:5]))
         res["discharged"] = 0
